@@ -163,6 +163,7 @@ pub fn generate(seed: u64, fault_free: bool) -> AliasOut {
         hash_shared: pre.chance(1, 5),
         key_hash_mode: if fault_free { 0 } else { *pre.pick(&[0u8, 0, 0, 1, 2]) },
         allow_redecl: pre.chance(1, 4),
+        strict_termination: true,
         ..RunCfg::default()
     };
     let mut g = Gen::new(seed, cfg);
@@ -298,6 +299,16 @@ pub fn generate(seed: u64, fault_free: bool) -> AliasOut {
                                     vec![],
                                 )
                             }
+                        } else if g.rng.chance(1, 4) {
+                            // a slice followed by a further index: every selected element is
+                            // written at that index, the elements themselves stay
+                            let rhs = alias_expr(&mut g, 1);
+                            let k = int(g.rng.range(-1, 1));
+                            g.push(
+                                "every-assign-below-slice",
+                                Ex::Assign(true, Box::new(Lv::Ident(name, vec![ix, Ix::Index(k)])), Box::new(rhs)),
+                                vec![],
+                            )
                         } else if g.rng.chance(1, 2) {
                             let rhs = alias_expr(&mut g, 1);
                             g.push(
